@@ -172,6 +172,19 @@ def check(ix, rep, label, only_fields=None, rule='R-NAME'):
             if isinstance(q, ast.Assign) and len(q.targets) == 1 and isinstance(q.targets[0], ast.Name):
                 local_defs.setdefault(q.targets[0].id, []).append(q.value)
 
+        # a local that is first bound to the rendering and then, under a condition, given a literal prefix / suffix (`name = '+' + name`) is the
+        # rendering for this rule; that the decorated names collide with nothing is the leaf-range clause's business (evaluated on the values)
+        for k_, defs_ in list(local_defs.items()):
+            if len(defs_) > 1:
+                def _self_update(v_):
+                    if isinstance(v_, ast.BinOp) and isinstance(v_.op, ast.Add):
+                        a_, b_ = v_.left, v_.right
+                        return (isinstance(a_, ast.Constant) and isinstance(a_.value, str) and isinstance(b_, ast.Name) and b_.id == k_) or \
+                               (isinstance(b_, ast.Constant) and isinstance(b_.value, str) and isinstance(a_, ast.Name) and a_.id == k_)
+                    return False
+                if all(_self_update(v_) for v_ in defs_[1:]):
+                    local_defs[k_] = defs_[:1]
+
         class _Inline(ast.NodeTransformer):
             def visit_Name(self, n_):
                 if isinstance(n_.ctx, ast.Load) and n_.id not in params and len(local_defs.get(n_.id, [])) == 1 \
@@ -251,8 +264,9 @@ def check(ix, rep, label, only_fields=None, rule='R-NAME'):
                 rep.fail(rule, c0.module.rel, c0.name, '%s:skeleton' % label, 'node classes %s print with the same fixed text %r: different operators over the same operands share a name'
                          % (classes, ''.join(skel[0])), st0.lineno)
             elif len(classes) > 1:
-                # leaves: Variable and Constant consist of one part only; told apart by the alphabets of identifiers and numerals
-                rep.ok(rule, c0.module.rel, '+'.join(classes), '%s:skeleton' % label, 'no fixed text (identifier / numeral)', st0.lineno)
+                # leaves: Variable and Constant consist of one part only.  They are told apart by the alphabets of identifiers and numerals -- which
+                # has to be checked: str() of a float is a numeral (first character a digit or '-') except for the three non-finite values
+                _leaf_ranges(ix, rep, owners, label, rule)
             else:
                 rep.ok(rule, c0.module.rel, c0.name, '%s:skeleton' % label, 'fixed text %r is used by this class only' % ''.join(skel[0]), st0.lineno)
     return n
@@ -266,3 +280,82 @@ def _parent_if(fnode, st):
             if any(st is x for x in n.orelse):
                 return (n.test, False)
     return None
+
+
+def _identifier_alphabets(ix):
+    """(first characters, later characters) of the lexer's Identifier token, read from the grammar"""
+    from sa import grammar as G
+    lx = G.load(ix.repo)['LtlLexer']
+
+    def chars_of(elem, seen):
+        out = set()
+        if elem.kind == 'lit':
+            v = G._unquote(elem.value)
+            if v:
+                out.add(v[0])
+        elif elem.kind == 'set':
+            body = elem.value.strip()[1:-1]
+            i = 0
+            while i < len(body):
+                if i + 2 < len(body) and body[i + 1] == '-':
+                    out.update(chr(c) for c in range(ord(body[i]), ord(body[i + 2]) + 1))
+                    i += 3
+                else:
+                    out.add(body[i])
+                    i += 1
+        elif elem.kind in ('token', 'rule'):
+            out |= rule_chars(elem.value, seen)
+        elif elem.kind == 'group':
+            for alt in elem.value:
+                if alt:
+                    out |= chars_of(alt[0], seen)
+        return out
+
+    def rule_chars(name, seen):
+        if name in seen or name not in lx.rules:
+            return set()
+        seen = seen | {name}
+        out = set()
+        for alt in lx.rules[name]:
+            if alt.elems:
+                out |= chars_of(alt.elems[0], seen)
+        return out
+    first = rule_chars('IdentifierStart', frozenset())
+    part = rule_chars('IdentifierPart', frozenset())
+    return first, part
+
+
+def _leaf_ranges(ix, rep, owners, label, rule):
+    from sa import worlds as W
+    from sa.index import AnalysisError
+    by = {c.name: (c, st) for c, st in owners}
+    if set(by) != {'Constant', 'Variable'}:
+        c0, st0 = owners[0]
+        rep.fail(rule, c0.module.rel, '+'.join(sorted(by)), '%s:skeleton' % label, 'node classes %s print without any fixed text: nothing tells their names apart' % sorted(by), st0.lineno)
+        return
+    first, part = _identifier_alphabets(ix)
+    if not first:
+        raise AnalysisError('the alphabet of the Identifier token could not be read from the lexer grammar')
+    cc, cst = by['Constant']
+    init = cc.methods.get('__init__')
+    bad = []
+    for v in (float('inf'), float('-inf'), float('nan'), 1.0, -2.5, 1e300):
+        ev = W.Evaluator(init.node, module_body=cc.module.tree.body, class_bodies=[cc.node.body])
+        try:
+            _, env = ev.run({init.node.args.args[1].arg: W.Const(v)})
+        except W.Unknown as e:
+            raise AnalysisError('%s: the name of a Constant is not computed in an interpreted form (%s)' % (init.where, e))
+        except W.Raised as e:
+            raise AnalysisError('%s: Constant(%r) raises %s' % (init.where, v, e.what))
+        nm = env.get('self.name')
+        if not isinstance(nm, W.Const) or not isinstance(nm.v, str):
+            raise AnalysisError('%s: the name of Constant(%r) is not a text the analysis can follow (%r)' % (init.where, v, nm))
+        if nm.v and nm.v[0] in first and all(ch in part for ch in nm.v[1:]):
+            bad.append((v, nm.v))
+    slot = '%s:skeleton:leaf-ranges' % label
+    if bad:
+        rep.fail(rule, cc.module.rel, 'Constant+Variable', slot, 'Constant(%r) prints as `%s`, which is an identifier of the specification language: a variable of that name and the constant '
+                 '(`%s >= 1e999`, a declared constant whose value is inf) share one name, so the online monitors give them one operator and one memo entry -- the constant is '
+                 'answered with the variable\'s sample' % (bad[0][0], bad[0][1], bad[0][1]), cst.lineno)
+    else:
+        rep.ok(rule, cc.module.rel, 'Constant+Variable', slot, 'no value of a Constant prints as an identifier (non-finite values included)', cst.lineno)
